@@ -35,6 +35,7 @@ partial def parseCExpr (tp : TimeParser τ) : Sexp → CExpr τ
   | .list [.atom "tracked", x, op, v] => .tracked x.nat! op.nat! v.int!
   | .list [.atom "tracked2", x, op, y] => .tracked2 x.nat! op.nat! y.nat!
   | .list [.atom "reslevel", r, op, .list am] => .resLevel r.nat! op.nat! (am.map Sexp.int!)
+  | .list [.atom "ref", n] => .ref n.nat!
   | _ => .eternity
 
 def parsePat : Sexp → Pat
@@ -87,6 +88,7 @@ partial def parseStmt (tp : TimeParser τ) : Sexp → Stmt τ
   | .list [.atom "log", k] => .log k.int!
   | .list [.atom "now"] => .logNow
   | .list [.atom "logcond", c] => .logCond (parseCExpr tp c)
+  | .list [.atom "defcond", n, c] => .defCond n.nat! (parseCExpr tp c)
   | .list [.atom "sleep", d] => .sleep (tm tp d)
   | .list [.atom "await", c] => .awaitC (parseCExpr tp c)
   | .list [.atom "set", f, b] => .setFlag f.nat! (b.nat! == 1)
